@@ -9,7 +9,10 @@ import SpecterModel.C24.Gen
   still there, new ones added) | `changed`; `bytes` = `same` | `diff` (main db file, byte-wise);
 * jm = journal mode the file was fabricated in (`wal` = the DSN the repo itself uses, `delete`).
 Model part (DIFF): outcome, user_version, object mask and row counts predicted by `openDb Gen.facts`.
-Spec part (SPEC, from the property statement): ok ⇒ current version, every table present, rows and old
+Spec part (SPEC, from the property statement): ok ⇒ the version stamp was not lowered (a file from a
+newer version carries a schema this release has no migration for, so "schema at the current version"
+is unattainable for it and re-stamping it only destroys its version record: the statement leaves
+refusal as its sole admissible outcome), current version, every table present, rows and old
 schema intact (and the index present unless the file was already stamped current); refuse ⇒ version,
 objects, rows, schema unchanged, and byte-identical file when it was fabricated with the repo's DSN. -/
 namespace Specter.C24
@@ -30,7 +33,11 @@ def step (_ : Unit) (toks : List String) (rhs : String) : Unit × Verdict :=
         let tablesAll := mask' % 16 = 15
         let specErr : Option String :=
           if out = "ok" then
-            if uv' ≠ cur then some s!"opened but user_version={uv'} (current {cur})"
+            if uv' < uv then
+              some s!"opened by lowering user_version {uv}->{uv'} (current {cur}): the file's version record was overwritten instead of the open being refused"
+            else if uv > cur then
+              some s!"opened a database from a newer version (user_version {uv} > current {cur}); it must be refused untouched"
+            else if uv' ≠ cur then some s!"opened but user_version={uv'} (current {cur})"
             else if ¬ tablesAll then some "opened with a table missing"
             else if rsame ≠ "same" then some "opened but existing rows changed"
             else if schema = "changed" then some "opened but existing schema objects changed"
